@@ -33,6 +33,31 @@ func Cmp(g *G, n int) []Program {
 			}
 			continue
 		}
+		if i%10 == 7 {
+			// infinities (and zeros) that used to hold different finite values: the stale mantissa and exponent must not count
+			form := g.PickS("inf", "inf", "zero")
+			sneg := g.Bool()
+			g.Load("r0", g.Bool(), g.Digits(1+g.R.Intn(30)), g.Exp(), 0, g.Mode())
+			g.Load("r1", g.Bool(), g.Digits(1+g.R.Intn(30)), g.Exp(), 0, g.Mode())
+			g.Emit(M{"op": "New", "z": "r2"})
+			for _, r := range regs {
+				if form == "inf" {
+					g.Emit(M{"op": "SetInf", "z": r, "neg": sneg})
+				} else {
+					g.Emit(M{"op": "SetPrec", "z": r, "p": 0}) // SetPrec(0) turns a finite value into a zero of its sign
+				}
+			}
+			for _, a := range regs {
+				g.Emit(M{"op": "Preds", "x": a})
+				for _, b := range regs {
+					g.Emit(M{"op": "Cmp", "x": a, "y": b})
+				}
+			}
+			if g.Pending() >= 150 {
+				out = append(out, g.Flush("cmp"))
+			}
+			continue
+		}
 		aligned := g.R.Intn(4) == 0
 		top := g.Digits(19 * g.Pick(1, 1, 2, 3))
 		for j, r := range regs {
